@@ -400,8 +400,11 @@ def check_C03(sc, v, tier, seed, replay):
               "ext x lengths at bounds and 127/128/129/300, SEQUENCE presence maps, SEQUENCE OF sizes, CHOICE 1..9 (and unset), each at "
               "several bit offsets; (b) every one of the 78 NGAP message types and 24 transfer containers with random in-constraint "
               "values generated by reflection (every 7th with deliberate violations); open types of length 0..16380; "
-              "(c) the constraints of about 160 named simple types, list sizes and enumerations in the struct tags against a hand "
-              "transcription of TS 38.413 9.4.5; distinct = distinct value tree")
+              "(c) the struct tags against a hand transcription of TS 38.413 (Ngap38413Types.tla): constraints of about 470 named simple types "
+              "and lists, SEQUENCE/CHOICE definitions of the 62 structured types on the emulator's path, all 153 IE identifiers and 78 messages "
+              "against every referenceFieldValue of the 267 open-type containers, generic rules (every ENUMERATED bounded, every SEQUENCE with "
+              "iE-Extensions/protocolIEs extensible at every use site, every CHOICE non-extensible over exactly its alternatives); "
+              "distinct = distinct value tree")
     v.assumptions = ["Per.tla is X.691 ALIGNED BASIC-PER; constraints are those of the struct tags, themselves compared with TS 38.413 for the types of Ngap38413Types.tla (others are tag-trusted)",
                      "a value using an extension of an extensible constraint may be refused, but must be encoded per X.691 if encoded"]
 
